@@ -24,7 +24,7 @@ LOCAL_KM = ["vi-opp", "vi-visual", "menu-select"]
 
 def model_check(rep, tier, wd):
     prepare_spec_dir(wd)
-    for t in (1, 2, 3, 4, 5):
+    for t in (1, 2, 3, 4, 5, 6):
         cfg = "MC_KeyDispatch_T%d.cfg" % t
         if tier == "thorough":
             open(os.path.join(wd, "MC_KeyDispatch_T%d_t.cfg" % t), "w").write(open(os.path.join(wd, cfg)).read().replace("In4", "In5"))
@@ -99,6 +99,9 @@ def nested_macro_tables(rng, n, vi):
         inner = [kx, ky] if rng.random() < 0.7 else [kx]
         body1 = rng.choice([[k1, m2, k2], [m2, k2], [k1, m2, k2, m2], [m2, m2, k1]])
         t = [{"seq": [k], "raw": [k], "cmd": "p%d" % i, "macro": False, "body": []} for i, k in enumerate(sorted({k1, k2, kx, ky}))]
+        if len(out) % 3 == 2:
+            # the inner body starts a longer binding that the key following it (in the outer body, or typed) rules out
+            t.append({"seq": [kx, kx], "raw": [kx, kx], "cmd": "plong", "macro": False, "body": []})
         t.append({"seq": [m1], "raw": [m1], "cmd": "", "macro": True, "body": body1})
         t.append({"seq": [m2], "raw": [m2], "cmd": "", "macro": True, "body": inner})
         out.append(t)
